@@ -79,19 +79,18 @@ Section FpSites.
   Proof. unfold loop_set_normal. destruct (verts L) as [|a [|b [|c l]]]; try discriminate. intros H; inversion H; reflexivity. Qed.
   Lemma push_open (L L' : Loop K) (p : V) : loop_push L p = Ok L' -> lclosed L' = false.
   Proof.
-    unfold loop_push, loop_push_gen, loop_push_gen2. cbn [negb andb].
+    unfold loop_push.
     destruct (valid_to_add L p) eqn:Ev; cbn [rbind]; try discriminate.
     assert (Ho : lclosed L = false) by (unfold valid_to_add in Ev; destruct (lclosed L); [discriminate | reflexivity]).
     match goal with |- rbind ?x _ = _ -> _ => destruct x as [vs| |]; cbn [rbind]; try discriminate end.
     destruct (Nat.eqb (length vs) 3); intros H.
     - apply set_normal_closed in H. rewrite H. exact Ho.
-    - inversion H; subst. exact Ho.
+    - destruct (Nat.ltb (length vs) 3); inversion H; subst; exact Ho.
   Qed.
   Lemma push_nonempty (L L' : Loop K) (p : V) : loop_push L p = Ok L' -> 1 <= llen L'.
   Proof.
-    intros H. destruct (push_cases _ _ _ H) as [E|[[E H2]|[E H2]]]; unfold llen in *; rewrite E.
+    intros H. destruct (push_cases _ _ _ H) as [(keep & Hk & E)|[E H2]]; unfold llen in *; rewrite E.
     - rewrite app_length. cbn [length]. lia.
-    - rewrite replace_last_length; [lia|]. intros C. rewrite C in H2. cbn [length] in H2. lia.
     - rewrite C12_merge.removelast_length. lia.
   Qed.
   Lemma push_all_shape : forall (vs : list V) (L L' : Loop K), push_all L vs = Ok L' -> vs <> [] -> 1 <= llen L' /\ lclosed L' = false.
@@ -637,30 +636,46 @@ Section Top.
 
   (** ** 7. polygons built through the API have non-empty holes: a closed Loop3D is never empty *)
   Definition closed_nonempty (L : Loop K) : Prop := lclosed L = true -> llen L <> 0.
+  Lemma pop_redundant_ge2 (fuel : nat) : forall vs : list V, 2 <= length vs -> 2 <= length (fst (pop_redundant vs fuel)).
+  Proof.
+    induction fuel as [|f IH]; intros vs H; cbn [pop_redundant]; [exact H|].
+    unfold last_is_redundant. destruct (Nat.ltb_spec (length vs) 3) as [C|C]; [exact H|].
+    destruct (is_collinear _ _ _) as [[|]| |]; cbn [fst]; try exact H.
+    apply IH. rewrite C12_merge.removelast_length. lia.
+  Qed.
+  Lemma drop_first_redundant_ge2 (fuel : nat) : forall vs : list V, 2 <= length vs -> 2 <= length (fst (drop_first_redundant vs fuel)).
+  Proof.
+    induction fuel as [|f IH]; intros vs H; cbn [drop_first_redundant]; [exact H|].
+    destruct (Nat.ltb_spec (length vs) 3) as [C|C]; [exact H|].
+    destruct (is_collinear _ _ _) as [[|]| |]; cbn [fst]; try exact H.
+    assert (H2 : 2 <= length (tl vs)) by (destruct vs; cbn [tl length] in *; lia).
+    pose proof (pop_redundant_ge2 (length vs) (tl vs) H2) as G. destruct (pop_redundant (tl vs) (length vs)) as [vs1 r]. cbn [fst] in G.
+    destruct r; cbn [fst]; try exact G. apply IH, G.
+  Qed.
   Lemma close_len_ge1 (L : Loop K) : 3 <= llen L -> 1 <= llen (fst (loop_close L)).
   Proof.
-    intros H3. unfold loop_close. destruct (Nat.ltb_spec (llen L) 3) as [C|_]; [lia|].
-    destruct (is_collinear _ _ _) as [c1| |]; cbn [fst]; try lia.
-    set (L1 := if c1 then set_verts L (removelast (verts L)) else L).
-    assert (G1 : 2 <= llen L1).
-    { unfold L1, llen. destruct c1; cbn [verts set_verts]; [rewrite C12_merge.removelast_length; unfold llen in H3; lia | exact (Nat.le_trans _ _ _ (le_S _ _ (le_n 2)) H3)]. }
-    destruct (valid_to_add L1 _); cbn [fst]; try lia.
-    destruct (is_collinear _ _ _) as [c2| |]; cbn [fst]; try lia.
-    set (L2 := if c2 then set_verts L1 (tl (verts L1)) else L1).
-    assert (G2 : 1 <= llen L2).
-    { unfold L2. unfold llen in G1 |- *. destruct c2; cbn [verts set_verts]; [|lia]. destruct (verts L1); cbn [tl length] in *; lia. }
-    match goal with |- context [loop_set_area ?l] => destruct (loop_set_area l) as [L4| |] eqn:E4 end; cbn [fst]; try exact G2.
+    intros H3. unfold loop_close. destruct (lclosed L); [cbn [fst]; lia|]. destruct (Nat.ltb_spec (llen L) 3) as [C|_]; [lia|].
+    pose proof (pop_redundant_ge2 (llen L) (verts L) ltac:(unfold llen in H3; lia)) as G1. destruct (pop_redundant (verts L) (llen L)) as [vs1 r1]. cbn [fst] in G1.
+    set (L1 := set_verts L vs1). assert (G1' : 1 <= llen L1) by (unfold L1, llen; cbn [verts set_verts]; lia).
+    destruct r1; cbn [fst]; try exact G1'.
+    destruct (Nat.ltb (length vs1) 3); [exact G1'|].
+    destruct (valid_to_add L1 _); cbn [fst]; try exact G1'.
+    pose proof (drop_first_redundant_ge2 (length vs1) vs1 G1) as G2. destruct (drop_first_redundant vs1 (length vs1)) as [vs2 r2]. cbn [fst] in G2.
+    set (L2 := set_verts L1 vs2). assert (G2' : 1 <= llen L2) by (unfold L2, llen; cbn [verts set_verts]; lia).
+    destruct r2; cbn [fst]; try exact G2'.
+    destruct (Nat.ltb (length vs2) 3); [exact G2'|].
+    match goal with |- context [loop_set_area ?l] => destruct (loop_set_area l) as [L4| |] eqn:E4 end; cbn [fst]; try exact G2'.
     destruct (loop_set_perimeter L4) as [L5| |] eqn:E5; cbn [fst].
-    - apply set_perimeter_verts in E5. apply set_area_verts in E4. unfold llen. rewrite E5, E4. exact G2.
-    - apply set_area_verts in E4. unfold llen. rewrite E4. exact G2.
-    - apply set_area_verts in E4. unfold llen. rewrite E4. exact G2.
+    - apply set_perimeter_verts in E5. apply set_area_verts in E4. unfold llen. rewrite E5, E4. exact G2'.
+    - apply set_area_verts in E4. unfold llen. rewrite E4. exact G2'.
+    - apply set_area_verts in E4. unfold llen. rewrite E4. exact G2'.
   Qed.
   Lemma step_closed_nonempty (L : Loop K) (op : lop K) : closed_nonempty L -> closed_nonempty (fst (loop_step L op)).
   Proof.
     intros HL. destruct op as [p|]; cbn [loop_step].
     - destruct (loop_push L p) as [L'| |] eqn:E; cbn [fst]; try exact HL. intros Hc. rewrite (push_open _ _ _ E) in Hc. discriminate.
     - destruct (Nat.ltb_spec (llen L) 3) as [C|C].
-      + unfold loop_close. apply Nat.ltb_lt in C. rewrite C. exact HL.
+      + unfold loop_close. apply Nat.ltb_lt in C. rewrite C. destruct (lclosed L); exact HL.
       + intros _. pose proof (close_len_ge1 L C). lia.
   Qed.
   Theorem run_closed_nonempty (ops : list (lop K)) : forall L : Loop K, closed_nonempty L -> closed_nonempty (fst (loop_run L ops)).
